@@ -440,7 +440,9 @@ func simC01(c c01Traj) (c01Outcome, error) {
 		}
 		q := int64(k + 1) // one nanosecond of quantisation per hit interval
 		// P1: the count after the release exceeds the schedule by at most one hit
-		sR := c.P.schedule(r + q)
+		// (linear and sine pacers derive every wait from the absolute schedule, so their rounding does not add up:
+		// two nanoseconds of grace in all, not one per hit)
+		sR := c.P.schedule(r + 2)
 		if exact {
 			// upper bound: the statement grants no allowance at all; the harness grants the rounding loss of
 			// an integer-nanosecond interval, (Per mod Freq)/Freq ns per hit, which is <= 1 ns per hit
@@ -454,7 +456,7 @@ func simC01(c c01Traj) (c01Outcome, error) {
 				return out, fmt.Errorf("%s step %d: hit %d released at %d ns (Pace(%d, %d) = %s) but S(%d ns) < %d (exact): count exceeds the schedule by more than one hit", c.P, step, k+1, r, now, k, w, r+q, k)
 			}
 		} else if float64(k+1) > sR+1+eps(sR) {
-			return out, fmt.Errorf("%s step %d: hit %d released at %d ns (Pace(%d, %d) = %s) but S(%d ns) = %.4f: count exceeds the schedule by %.4f hits (> 1)", c.P, step, k+1, r, now, k, w, r+q, sR, float64(k+1)-sR)
+			return out, fmt.Errorf("%s step %d: hit %d released at %d ns (Pace(%d, %d) = %s) but S(%d ns) = %.4f: count exceeds the schedule by %.4f hits (> 1)", c.P, step, k+1, r, now, k, w, r+2, sR, float64(k+1)-sR)
 		}
 		// P3: at the release instant the count is at most one hit behind (constant, sine); whenever
 		// the pacer itself chose the instant (positive wait), and at every step of stall-free runs.
@@ -574,7 +576,12 @@ func c01GenTraj(t *rapid.T) c01Traj {
 		}
 		c.P.Freq, c.P.Per = c01RateAs(t, "startas", meanRate)
 		meanRate = float64(c.P.Freq) / float64(c.P.Per) * 1e9
-		switch rapid.IntRange(0, 4).Draw(t, "slopek") {
+		slopek := rapid.IntRange(0, 4).Draw(t, "slopek")
+		if slopeLo < 1e-3 && rapid.Bool().Draw(t, "flatfast") {
+			slopek = 0 // a flat line at millions of hits per second (hit intervals that are not whole nanoseconds), followed for long
+			c.Steps = maxSteps
+		}
+		switch slopek {
 		case 0:
 			c.P.SlopeBits = math.Float64bits(0)
 		case 1, 2:
